@@ -24,7 +24,7 @@ from elementpath.exceptions import ElementPathError
 from elementpath.namespaces import XSD_NAMESPACE, XSD_NOTATION, XSD_ANY_ATOMIC_TYPE, XSD_UNTYPED
 from elementpath.helpers import numeric_equal, numeric_not_equal, \
     node_position, get_double
-from elementpath.namespaces import XSD_ERROR, get_namespace, get_expanded_name
+from elementpath.namespaces import get_namespace, get_expanded_name
 from elementpath.datatypes import UntypedAtomic, QName, AnyURI, \
     Duration, Integer, DoubleProxy10
 from elementpath.xpath_nodes import ElementNode, DocumentNode, XPathNode, AttributeNode
@@ -249,9 +249,7 @@ def evaluate__instance_expression(self: XPathToken, context: ta.ContextType = No
 
             result = self[1].evaluate(context)
             if isinstance(result, list) and not result:
-                return occurs in ('*', '?') or \
-                    isinstance(context.item, XPathFunction) and \
-                    context.item.name == XSD_ERROR
+                return False
             elif position and occurs in ('', '?'):
                 return False
         else:
